@@ -305,7 +305,7 @@ func boundaryValues() []uint64 {
 func main() {
 	vlib.Main("C10", "model_checking", func(c *vlib.Ctx) {
 		c.Rule("exhaustive enumeration: all 2^8/2^16 values, 2^24 low range + every value within 3 of every power of two for 32/64 bit (round trip, minimality, EncodedSize, trailing bytes; each encoding is also given to every narrower unpacker, which must refuse it; the caller overwrites every packed result and packs again); " +
-			"all byte strings of length<=3 and all strings of length 4..10 over {00,01,7f,80,ff} for every UnpackN; GetNextBlock over all byte strings <=3, 5-symbol strings <=7 and every boundary length prefix x short payload; " +
+			"all byte strings of length<=3 and all strings of length 4..10 over {00,01,7f,80,ff} and all runs of 8..12 continuation bytes over {80,ff} followed by <= 2 bytes for every UnpackN and GetNextBlock; GetNextBlock over all byte strings <=3, 5-symbol strings <=7 and every boundary length prefix x short payload; " +
 			"non-trivial = distinct byte strings that start a multi-byte varint (first byte >= 0x80, length >= 2), counted while enumerating; each input evaluated against the textbook reference")
 		c.Assume("reference decoder treats non-minimal (zero-padded) encodings as 'value or error' since the property only fixes the packed form to be minimal")
 		if c.Replay != "" {
@@ -443,6 +443,39 @@ func main() {
 		c.Extra("symbol_strings", ss)
 		evals += ss * 4
 		c.Sample(map[string]any{"kind": "bytes", "input_hex": "ffffffffffffffffff01", "reference": "value 2^64-1, consumed 10"})
+
+		// 3b. long runs of continuation bytes (8..12 bytes over {80,ff}) followed by 0..2 further bytes: the width limit of
+		// every unpacker, over-long (11+ byte) encodings, and the same through GetNextBlock
+		tails := [][]byte{{}}
+		tsym := []byte{0x00, 0x01, 0x02, 0x7f, 0x80, 0xff}
+		for _, a := range tsym {
+			tails = append(tails, []byte{a})
+			for _, b := range tsym {
+				tails = append(tails, []byte{a, b})
+			}
+		}
+		var longRuns int64
+		for k := 8; k <= 12; k++ {
+			for mask := 0; mask < 1<<k; mask++ {
+				run := make([]byte, k)
+				for i := range run {
+					run[i] = 0x80
+					if mask&(1<<i) != 0 {
+						run[i] = 0xff
+					}
+				}
+				for _, t := range tails {
+					in := append(append([]byte{}, run...), t...)
+					for _, u := range unpackers {
+						c.Outcome(u.name + ":long-run:" + checkUnpack(c, u, in))
+					}
+					c.Outcome("GetNextBlock:long-run:" + checkBlock(c, in))
+					longRuns++
+				}
+			}
+		}
+		c.Extra("long_continuation_runs", longRuns)
+		evals += longRuns * 5
 
 		// 4. block extraction with boundary length prefixes
 		var blocks int64
